@@ -103,13 +103,13 @@ def run(c):
                   "grin_core::ser::Writer::protocol_version", desc="%s: protocol_version() is consulted only on the non-hash-mode edge" % k)
     c.r2_ret("hash-writer-version-constant", "<grin_core::core::hash::HashWriter as grin_core::ser::Writer>::protocol_version", must=[], must_not=["arg0"],
              desc="HashWriter::protocol_version does not depend on the writer's state")
-    c.r1("hashed-uses-hash-writer", "<D as grin_core::core::hash::Hashed>::hash", "re:HashWriter as core::default::Default>::default$", sink="grin_core::ser::Writeable::write", via=0)
+    c.r1("hashed-uses-hash-writer", "<D as grin_core::core::hash::Hashed>::hash", "re:HashWriter as core::default::Default>::default$", sink="grin_core::ser::Writeable::write", via=2)
     # --- canonical-form refusals
-    c.r1("body-sorted-on-read", "<%sTransactionBody as grin_core::ser::Readable>::read" % T, T + "TransactionBody::init", via=0)
+    c.r1("body-sorted-on-read", "<%sTransactionBody as grin_core::ser::Readable>::read" % T, T + "TransactionBody::init", via=2)
     c.r2_arg("body-sorted-flag", "<%sTransactionBody as grin_core::ser::Readable>::read" % T, T + "TransactionBody::init", 3, const=1)
-    c.r1("init-verifies-sorted", T + "TransactionBody::init", T + "TransactionBody::verify_sorted", via=0, extra_cuts=c.false_edges(T + "TransactionBody::init", r"^arg3$"),
+    c.r1("init-verifies-sorted", T + "TransactionBody::init", T + "TransactionBody::verify_sorted", via=2, extra_cuts=c.false_edges(T + "TransactionBody::init", r"^arg3$"),
          desc="TransactionBody::init(.., verify_sorted = true) passes verify_sorted")
-    c.r1_all("verify-sorted-all", T + "TransactionBody::verify_sorted", ["re:VerifySortedAndUnique<.*>>::verify_sorted_and_unique$|VerifySortedAndUnique::verify_sorted_and_unique$"], via=0)
+    c.r1_all("verify-sorted-all", T + "TransactionBody::verify_sorted", ["re:VerifySortedAndUnique<.*>>::verify_sorted_and_unique$|VerifySortedAndUnique::verify_sorted_and_unique$"], via=2)
     c.r3("sorted-unique-sites", "re:VerifySortedAndUnique::verify_sorted_and_unique$", {T + "TransactionBody::verify_sorted", "grin_core::core::compact_block::CompactBlockBody::verify_sorted", T + "Inputs::verify_sorted_and_unique"}, floor_sites=6)
     c.r2("body-weight-precheck", "<%sTransactionBody as grin_core::ser::Readable>::read" % T, ops={"Gt"}, lhs=["call:TransactionBody::weight_by_iok", "call:Reader::read_u64"],
          rhs=["call:global::max_tx_weight" if False else "re:^call:global::max_(block|tx)_weight$"], err="TooLargeReadErr", sink="grin_core::ser::read_multi")
@@ -135,14 +135,14 @@ def run(c):
          desc="read_empty_bytes: a non-zero padding byte is refused")
     c.r2("nrd-range", "<%sNRDRelativeHeight as core::convert::TryFrom<u16>>::try_from" % T, ops={"Lt", "Gt", "Ge", "Le", "Eq"}, any_side=["arg0"], err=None, dominate=False, strict_ops=False,
          desc="NRDRelativeHeight::try_from refuses out-of-range heights")
-    c.r1("nrd-read-validates", "<%sNRDRelativeHeight as grin_core::ser::Readable>::read" % T, "re:NRDRelativeHeight as core::convert::TryFrom<u16>>::try_from$|TryFrom::try_from$|TryInto::try_into$", via=0)
-    c.r1("output-features-validated", "<%sOutputFeatures as grin_core::ser::Readable>::read" % T, "re:FromPrimitive::from_u8$|OutputFeatures as num_traits::cast::FromPrimitive>::from_u8$", via=0)
-    c.r1("compact-body-sorted", "<grin_core::core::compact_block::CompactBlockBody as grin_core::ser::Readable>::read", "grin_core::core::compact_block::CompactBlockBody::init", via=0)
+    c.r1("nrd-read-validates", "<%sNRDRelativeHeight as grin_core::ser::Readable>::read" % T, "re:NRDRelativeHeight as core::convert::TryFrom<u16>>::try_from$|TryFrom::try_from$|TryInto::try_into$", via=2)
+    c.r1("output-features-validated", "<%sOutputFeatures as grin_core::ser::Readable>::read" % T, "re:FromPrimitive::from_u8$|OutputFeatures as num_traits::cast::FromPrimitive>::from_u8$", via=2)
+    c.r1("compact-body-sorted", "<grin_core::core::compact_block::CompactBlockBody as grin_core::ser::Readable>::read", "grin_core::core::compact_block::CompactBlockBody::init", via=2)
     c.r2("segment-positions-sorted", "grin_core::core::pmmr::segment::read_segment_positions", ops={"Le"}, lhs=["call:Reader::read_u64"], err="SortError", dominate=False)
     BB = "<grin_chain::txhashset::bitmap_accumulator::BitmapBlock as grin_core::ser::Readable>::read"
     c.r2("bitmap-block-bounds", BB, ops={"Ge"}, lhs=["call:Reader::read_u16"], rhs=["call:Reader::read_u8", "op:MulWithOverflow", "re:^item:BitmapChunk::LEN_BITS="], err="CorruptedData",
          sink="re:bit_vec::BitVec::set$", min_guards=2)
-    c.r1("bitmap-serialisation-tag", "<grin_chain::txhashset::bitmap_accumulator::BitmapBlockSerialization as grin_core::ser::Readable>::read", "re:FromPrimitive::from_u8$|from_u8$", via=0)
+    c.r1("bitmap-serialisation-tag", "<grin_chain::txhashset::bitmap_accumulator::BitmapBlockSerialization as grin_core::ser::Readable>::read", "re:FromPrimitive::from_u8$|from_u8$", via=2)
     c.r2("read-multi-count", "grin_core::ser::read_multi", ops={"Gt"}, lhs=["arg1"], err="TooLargeReadErr", dominate=False, strict_ops=False)
     c.r2("inputs-unsupported-version", "<%sInputs as grin_core::ser::Writeable>::write" % T, cond=r"ProtocolVersion::value\(Writer::protocol_version\(arg1\)\)", fail_on=None, err=None) if False else None
     PR = "<grin_core::pow::types::Proof as grin_core::ser::Readable>::read"
